@@ -24,6 +24,10 @@ WRAPS_A = ["pthread_mutex_trylock", "pthread_rwlock_tryrdlock", "pthread_rwlock_
 WRAPS_S = ["pthread_mutex_lock", "pthread_mutex_trylock", "pthread_mutex_unlock", "pthread_cond_wait",
            "pthread_cond_signal", "pthread_cond_broadcast"]
 KEY_TIMED = "cond_timedwait_timeout_wraps"
+# Which model uv_cond_timedwait is compared with: "timed" = the current code (timeout += hrtime
+# wraps), "timedfix" = the saturating variant of notes/C20_fix_timedwait.diff.  Switch the default
+# together with the fix commit (VERIF_C20_TIMED=timedfix tries it without editing).
+TIMED_MODE = os.environ.get("VERIF_C20_TIMED", "timed")
 KEY_STACK = "stack_size_rounding_wraps"
 
 
@@ -177,6 +181,8 @@ def timed_monitor(case, line):
     if mode != "T" or len(f) != 4:
         return None
     if f[2] == "-110" and int(f[3]) < int(to):
+        if TIMED_MODE == "timedfix" and int(s) * NS + int(n) + int(f[3]) >= U64 - 1:
+            return None      # the virtual clock itself reached 2^64-1 ns (hypothesis of the fixed theorem)
         return "UV_ETIMEDOUT after %s ns on uv_hrtime(), timeout was %s ns" % (f[3], to)
     return None
 
@@ -216,7 +222,7 @@ def bar_cases(rng, count):
         n = thr if r < 0.35 else min(8, thr * rng.randint(1, 3)) if r < 0.7 else rng.randint(1, 8)
         rounds = [rng.randint(1, 3)] * n if rng.random() < 0.6 else [rng.randint(0, 3) for _ in range(n)]
         out.append("%d %s ; %s" % (thr, " ".join(map(str, rounds)),
-                                   schedule(rng, n, rng.randint(0, 40 * n), 12 * max(rounds + [1]) + 6)))
+                                   schedule(rng, n, rng.randint(0, 40 * n), 25 * max(rounds + [1]) + 10)))
     return out
 
 
@@ -369,21 +375,24 @@ def main():
 
     # (c) timed wait deadline
     tc = corpus("timed.txt") + timed_cases(chk.rng, thorough)
-    a, b = both("timed", tc, [hwrap, "timed"])
+    a, b = both(TIMED_MODE, tc, [hwrap, "timed"])
     diff_known(chk, "uv_cond_timedwait deadline = Model/Thread.v part C", tc, a, b, timed_monitor, timed_known)
 
     # (e) the two algorithms under the serialising scheduler, lock-step
-    bc = corpus("barrier.txt") + bar_cases(chk.rng, 6000 if thorough else 500)
+    bc = corpus("barrier.txt") + bar_cases(chk.rng, 20000 if thorough else 2500)
     a, b = both("bar", bc, [hbar], shards=14)
     vf.diff_cases(chk, "thread-common.c fallback barrier = Model/Thread.v barrier (lock-step under detsched)",
                   bc, a, b, bar_monitor)
     chk.sample({"barrier_case": bc[-1][:120], "impl": a[-1][:200] if a else None})
-    xc = corpus("sem.txt") + sem_cases(chk.rng, 6000 if thorough else 500)
+    chk.cov["barrier_verdicts(done,unfinished,deadlock)"] = [sum(1 for l in a if l.endswith(v)) for v in ("v0", "v1", "v2")]
+    chk.cov["barrier_steps_compared"] = sum(len(l.split()) for l in a)
+    chk.cov["barrier_rounds_completed"] = sum(l.count(":r1") for l in a)
+    xc = corpus("sem.txt") + sem_cases(chk.rng, 20000 if thorough else 2500)
     a, b = both("sem", xc, [hsem], shards=14)
     vf.diff_cases(chk, "thread.c custom semaphore = Model/Thread.v semaphore (lock-step under detsched)",
                   xc, a, b, sem_monitor)
-    chk.cov["schedule_steps_compared"] = sum(len(l.split()) for l in a)
-    chk.cov["deadlock_verdicts"] = sum(1 for l in a if l.endswith("v2"))
+    chk.cov["sem_verdicts(done,unfinished,deadlock)"] = [sum(1 for l in a if l.endswith(v)) for v in ("v0", "v1", "v2")]
+    chk.cov["sem_steps_compared"] = sum(len(l.split()) for l in a)
 
     chk.finish(
         level="proof",
